@@ -10,10 +10,16 @@
 (*   read{size,out,key,n,kv,c0,seq}  one ReadChunk call of the packing loop;*)
 (*        out=small|eof carry {nkv,arr}: the batch that ends here and its   *)
 (*        serviceinfo.ArraySizeCBOR                                         *)
+(*        a write may carry n = 0 (an empty Write call); operations that    *)
+(*        follow close in the script are the writer's calls after Close     *)
+(*   late{op,failed}                 the outcome of one call after Close,   *)
+(*                                   in program order: it must have failed  *)
 (*   werr{msg}                       an error (or panic) seen by the writer *)
+(*                                   in a call before or at Close           *)
 (*   feeds{count}                    every chunk read was given, in order,  *)
 (*                                   to ChunkWriter.WriteChunk, then Close  *)
-(*   feed{key,n} feedclose           the same, one event per call           *)
+(*   feed{key,n} feedclose           the same, one event per call; n = 0 is *)
+(*                                   a WriteChunk with an empty value       *)
 (*   unchunk{key,n,c0,seq}           NextServiceInfo + body read to the end *)
 (*   end                             the run completed                      *)
 (*   hang{where} crash{msg}          instruments; no action produces them   *)
@@ -41,42 +47,52 @@ ReadMatches ==
              /\ Ev.seq = TRUE
              /\ Ev.c0 = Mod251(StartOf(r.i) + r.off)}
 
-RECURSIVE WellFormed(_, _, _)
-WellFormed(ops, j, open) ==       \* a write needs an open message and at least one byte
+RECURSIVE WellFormed(_, _, _, _)
+WellFormed(ops, j, open, tot) ==  \* a write needs an open message; a message has at least one byte in all
     IF j > Len(ops) THEN TRUE
-    ELSE CASE ops[j].op = "next"  -> WellFormed(ops, j + 1, TRUE)
-           [] ops[j].op = "write" -> open /\ ops[j].n >= 1 /\ WellFormed(ops, j + 1, TRUE)
-           [] ops[j].op = "yield" -> WellFormed(ops, j + 1, FALSE)
-           [] ops[j].op = "close" -> j = Len(ops)
+    ELSE CASE ops[j].op = "next"  -> (open => tot >= 1) /\ WellFormed(ops, j + 1, TRUE, 0)
+           [] ops[j].op = "write" -> open /\ ops[j].n >= 0 /\ WellFormed(ops, j + 1, TRUE, tot + ops[j].n)
+           [] ops[j].op = "yield" -> (open => tot >= 1) /\ WellFormed(ops, j + 1, FALSE, 0)
+           [] ops[j].op = "close" -> (open => tot >= 1)
+                                     /\ \A i \in (j + 1)..Len(ops) : ops[i].op \in {"next", "write", "yield", "close"}
            [] OTHER -> FALSE
+
+ClosePos(ops) == CHOOSE j \in 1..Len(ops) : ops[j].op = "close" /\ \A i \in 1..(j - 1) : ops[i].op # "close"
+LateOf(ops) == IF \E j \in 1..Len(ops) : ops[j].op = "close" THEN SubSeq(ops, ClosePos(ops) + 1, Len(ops)) ELSE <<>>
 
 RECURSIVE FeedAll(_, _)
 FeedAll(a, j) == IF j > Len(out) THEN a ELSE FeedAll(FeedOne(a, out[j]), j + 1)
 
 Cond ==
-    CASE Ev.ev = "script" -> ~wdone /\ pipes = <<>> /\ WellFormed(Ev.ops, 1, FALSE)
+    CASE Ev.ev = "script" -> ~wdone /\ pipes = <<>> /\ WellFormed(Ev.ops, 1, FALSE, 0)
+      [] Ev.ev = "late"  -> wdone /\ pc <= Len(script) /\ script[pc].op = Ev.op /\ Ev.failed = TRUE
       [] Ev.ev = "next"  -> ~wdone
-      [] Ev.ev = "write" -> ~wdone /\ CanWrite(pipes) /\ Ev.n >= 1
+      [] Ev.ev = "write" -> ~wdone /\ CanWrite(pipes) /\ Ev.n >= 0
       [] Ev.ev = "yield" -> ~wdone
       [] Ev.ev = "close" -> ~wdone
       [] Ev.ev = "read"  -> /\ ~eof /\ Ev.size = budget /\ Ev.out \in {"chunk", "small", "eof"} /\ ReadMatches # {}
                             /\ Ev.out \in {"small", "eof"} => Ev.nkv = Len(batch) /\ Ev.arr = ArraySize(batch)
       [] Ev.ev = "feeds" -> ~Has("err") /\ eof /\ fed = 0 /\ ~feedclosed /\ Ev.count = Len(out)
-      [] Ev.ev = "feed"  -> /\ ~Has("err") /\ fed < Len(out) /\ ~feedclosed
-                            /\ out[fed + 1].key = Ev.key /\ out[fed + 1].n = Ev.n
+      [] Ev.ev = "feed"  -> /\ ~Has("err")
+                            /\ IF Ev.n = 0 THEN CanFeedEmpty(Ev.key)
+                               ELSE /\ fed < Len(out) /\ ~feedclosed
+                                    /\ out[fed + 1].key = Ev.key /\ out[fed + 1].n = Ev.n
       [] Ev.ev = "feedclose" -> ~Has("err") /\ eof /\ fed = Len(out) /\ ~feedclosed
       [] Ev.ev = "unchunk" -> /\ ~Has("err") /\ taken < Len(asm) /\ (taken + 1 < Len(asm) \/ feedclosed)
                               /\ asm[taken + 1].key = Ev.key /\ asm[taken + 1].n = Ev.n
                               /\ Ev.seq = TRUE /\ Ev.c0 = Mod251(StartOf(asm[taken + 1].i))
-      [] Ev.ev = "end"   -> Terminal
+      [] Ev.ev = "end"   -> Terminal /\ pc > Len(script)
       [] OTHER -> FALSE        \* werr, hang, crash, unknown
 
-RestUnch == UNCHANGED <<mtu, pos, budget, batch, sent, out, eof, fed, feedclosed, asm, taken, last, script, pc>>
+ReaderSame == UNCHANGED <<mtu, pos, budget, batch, sent, out, eof, fed, feedclosed, asm, taken, last>>
+RestUnch == ReaderSame /\ UNCHANGED <<script, pc>>
 
 Eff ==
     CASE Ev.ev = "script" -> /\ pipes' = RunScript(Ev.ops, 1, <<>>)
-                             /\ wdone' = (Ev.ops[Len(Ev.ops)].op = "close")
-                             /\ RestUnch
+                             /\ wdone' = (\E j \in 1..Len(Ev.ops) : Ev.ops[j].op = "close")
+                             /\ script' = LateOf(Ev.ops) /\ pc' = 1      \* the calls after Close still to be reported
+                             /\ ReaderSame
+      [] Ev.ev = "late"  -> WLate /\ pc' = pc + 1 /\ ReaderSame /\ UNCHANGED script
       [] Ev.ev = "next"  -> WNext(Ev.key) /\ RestUnch
       [] Ev.ev = "write" -> WWrite(Ev.n) /\ RestUnch
       [] Ev.ev = "yield" -> WYield /\ RestUnch
@@ -85,7 +101,7 @@ Eff ==
                             /\ UNCHANGED <<mtu, pipes, wdone, fed, feedclosed, asm, taken, script, pc>>
       [] Ev.ev = "feeds" -> /\ fed' = Len(out) /\ asm' = FeedAll(<<>>, 1) /\ feedclosed' = TRUE
                             /\ UNCHANGED <<mtu, pipes, wdone, pos, budget, batch, sent, out, eof, taken, last, script, pc>>
-      [] Ev.ev = "feed"  -> Feed
+      [] Ev.ev = "feed"  -> IF Ev.n = 0 THEN FeedEmpty(Ev.key) ELSE Feed
       [] Ev.ev = "feedclose" -> FeedClose
       [] Ev.ev = "unchunk" -> Unchunk
       [] OTHER -> UNCHANGED vars     \* end
